@@ -24,6 +24,7 @@ type ty struct {
 	name  string // struct / opaque name
 	elem  *ty    // list element / option payload
 	isPtr bool
+	sw    int // restgen.go: width of a SIGNED integer whose two's-complement wrap is made explicit (0 = unbounded, the default)
 }
 
 var (
@@ -108,7 +109,17 @@ func cname(n string) string {
 	return n
 }
 
+// trTypeHook / trExprHook let another translator of this package add type and expression forms (restgen.go sets them
+// while it runs); they are nil while Gen/Preds.v is emitted.
+var trTypeHook func(t *tr, e ast.Expr) *ty
+var trExprHook func(t *tr, e ast.Expr) (string, *ty, bool)
+
 func (t *tr) goType(e ast.Expr) *ty {
+	if trTypeHook != nil {
+		if typ := trTypeHook(t, e); typ != nil {
+			return typ
+		}
+	}
 	switch e := e.(type) {
 	case *ast.Ident:
 		if w, _, ok := t.p.intType(e.Name); ok {
@@ -167,6 +178,9 @@ func pow2(w int) string {
 }
 
 func wrap(s string, t *ty) string {
+	if t.k == "int" && t.sw > 0 {
+		return fmt.Sprintf("(sint_wrap %d (%s))", t.sw, s)
+	}
 	if t.k == "int" && t.w > 0 {
 		return "((" + s + ") mod " + pow2(t.w) + ")"
 	}
@@ -198,6 +212,11 @@ func asStruct(s string, typ *ty) (string, *ty) {
 }
 
 func (t *tr) expr(e ast.Expr) (string, *ty) {
+	if trExprHook != nil {
+		if s, typ, ok := trExprHook(t, e); ok {
+			return s, typ
+		}
+	}
 	switch e := e.(type) {
 	case *ast.BasicLit:
 		v, ok := t.p.evalConst(e, nil)
@@ -488,7 +507,7 @@ func (t *tr) binary(e *ast.BinaryExpr) (string, *ty) {
 		return wrap("("+xs+" * "+ys+")", rt), rt
 	case token.QUO:
 		if signed {
-			return "(Z.quot " + xs + " " + ys + ")", rt
+			return wrap("(Z.quot "+xs+" "+ys+")", rt), rt // wrap: identity unless restgen.go asked for explicit int64 wrap
 		}
 		return "(" + xs + " / " + ys + ")", rt
 	case token.REM:
